@@ -14,7 +14,7 @@ import random
 
 from ..common import Run, exc_class, MachineryError, quiet_pygaps
 from .. import tlc
-from ..units_common import late_material, rebound_material, Atoms, enc, dec, sparse, n2, custom_adsorbate, custom_material, ratio_of, close, reference_constants
+from ..units_common import dec_slot, late_material, rebound_material, Atoms, enc, dec, sparse, n2, custom_adsorbate, custom_material, ratio_of, close, reference_constants
 
 PID = "C01"
 TOL = 1e-9
@@ -44,12 +44,20 @@ def call(kind, f, t, m, value, ads, temp, mat):
     raise MachineryError(kind)
 
 
-def observe(kind, f, t, m, forms, ads, temp, mat):
+SLOTS = {"P": ("pmode", "punit"), "L": ("lbasis", "lunit"), "M": ("mbasis", "munit")}
+
+
+def observe(kind, f, t, m, forms, ads, temp, mat, variant=0, same=None):
     """Run the real conversion with each value form; returns list of (form, outcome)."""
     import numpy
     import pandas
     obs = []
-    pf, pt, pm = [dec(x) for x in f], [dec(x) for x in t], [dec(x) for x in m]
+    sl = SLOTS[kind]
+    pf = [dec_slot(x, s, variant) for x, s in zip(f, sl)]
+    # every other record uses the very same unknown string on both sides (an unknown unit is refused even as an identity)
+    off = (variant // 5) % 2 if same is None else (0 if same else 1)
+    pt = [dec_slot(x, s, variant + off) for x, s in zip(t, sl)]
+    pm = [dec_slot(x, s, variant + 2) for x, s in zip(m, SLOTS["M"])]
     for name, val in forms:
         try:
             out = call(kind, pf, pt, pm, val, ads, temp, mat)
@@ -280,6 +288,7 @@ def main(tier, seed):
     answers = tlc.oracle("UnitsOracle", [r for r, _ in recs], timeout=1200)
     atom_cache = {}
     forms = value_forms(rng)
+    nrec = 0
     for (r, (fi, mi)), ans in zip(recs, answers):
         name, ads, temp = ads_list[fi]
         mat = mat_list[mi]
@@ -287,7 +296,13 @@ def main(tier, seed):
             atom_cache[(fi, mi)] = Atoms(ads, temp, mat)
         atoms = atom_cache[(fi, mi)]
         site = {"P": "c_pressure", "L": "c_loading", "M": "c_material"}[r["k"]]
-        obs = observe(r["k"], r["f"], r["t"], r["m"], forms, ads, temp, mat)
+        if "bogus" in r["f"] and r["f"] == r["t"]:
+            # identical unknown atoms: once with the very same string on both sides, once with two different unknown strings
+            obs = observe(r["k"], r["f"], r["t"], r["m"], forms, ads, temp, mat, variant=nrec, same=True) \
+                + observe(r["k"], r["f"], r["t"], r["m"], forms, ads, temp, mat, variant=nrec, same=False)
+        else:
+            obs = observe(r["k"], r["f"], r["t"], r["m"], forms, ads, temp, mat, variant=nrec)
+        nrec += 1
         nontrivial = not (r["f"] == r["t"])
         run.count((r["k"], tuple(r["f"]), tuple(r["t"]), tuple(r["m"]), fi, mi), nontrivial=nontrivial, n=len(obs))
         judge(run, site, r["k"], r["f"], r["t"], r["m"], ans, obs, atoms)
